@@ -3,7 +3,6 @@ from dataclasses import dataclass, field
 from typing import TYPE_CHECKING, Dict, List, Optional, Tuple
 
 from .encoding import Encoding, get_string_encoding
-from . import exceptions
 from .exceptions import DecodeError, odxassert, odxraise
 from .odxtypes import AtomicOdxType, DataType, ParameterValue
 
@@ -115,11 +114,16 @@ class DecodeState:
         # ... string types, ...
         elif base_data_type in (DataType.A_UTF8STRING, DataType.A_ASCIISTRING,
                                 DataType.A_UNICODE2STRING):
-            text_errors = 'strict' if exceptions.strict_mode else 'replace'
             str_encoding = get_string_encoding(base_data_type, base_type_encoding,
                                                is_highlow_byte_order)
             if str_encoding is not None:
-                internal_value = raw_value.decode(str_encoding, errors=text_errors)
+                try:
+                    internal_value = raw_value.decode(str_encoding, errors='strict')
+                except UnicodeDecodeError:
+                    odxraise(
+                        f"The bytes 0x{raw_value.hex()} are not a valid "
+                        f"{str_encoding} string", DecodeError)
+                    internal_value = raw_value.decode(str_encoding, errors='replace')
             else:
                 internal_value = "ERROR"
 
